@@ -23,8 +23,20 @@ fn rt<const N: usize>(m: &Value, seed: u64) -> Result<Value> {
 		let other: Mappings<N, Ns> = json_to_tree_ord(m, &mut pf)?;
 		match quill::tiny_v2::write_vec(&other) { Ok(t) => if t != text { same = false; }, Err(_) => same = false }
 	}
+	// the same text through a writer that takes a few bytes per call, and read from a reader that hands out a few per call
+	let mut slow = Vec::new();
+	if quill::tiny_v2::write(&base, &mut super::FragW::new(&mut slow)).is_err() || slow != text { same = false; }
 	let s = String::from_utf8(text.clone()).context("utf8")?;
-	let back = quill::tiny_v2::read::<N, Ns>(&text[..]);
+	struct FragR<'a>(&'a [u8], usize);
+	impl std::io::Read for FragR<'_> {
+		fn read(&mut self, buf: &mut [u8]) -> std::io::Result<usize> {
+			let n = buf.len().min(self.0.len()).min(if self.1 == 0 { usize::MAX } else { self.1 });
+			buf[..n].copy_from_slice(&self.0[..n]);
+			self.0 = &self.0[n..];
+			Ok(n)
+		}
+	}
+	let back = quill::tiny_v2::read::<N, Ns>(FragR(&text[..], [0, 1, 5, 64][text.len() % 4]));
 	let fixed = match &back { Ok(b) => quill::tiny_v2::write_vec(b).map(|t| t == text).unwrap_or(false), Err(_) => false };
 	let lines = text_to_lines(&s);
 	Ok(json!({"same": same, "fixed": fixed, "read": res_tree(back), "nlines": lines.as_array().map(|a| a.len()).unwrap_or(0), "lines": lines}))
